@@ -459,8 +459,59 @@ pub fn run_c09(tier: &str, seed: u64, report: &mut Report) {
 
 // ---------------------------------------------------------------- C10
 
+/// Directed, real code + oracle: damage in a BIG index — one version of 10030 one-entry hunks (two index
+/// sub-directories); a hunk in the FULL first sub-directory is deleted, then another emptied: listing and
+/// validation must report it and every other entry must still be listed.
+fn big_index_lost_hunk(report: &mut Report) {
+    let work = tempfile::tempdir().unwrap();
+    let (src, arch) = (work.path().join("src"), work.path().join("arch"));
+    std::fs::create_dir(&src).unwrap();
+    let n = 10_028usize;
+    for i in 0..n {
+        std::fs::write(src.join(format!("e{i:05}")), b"").unwrap();
+    }
+    create_archive(&arch);
+    let p = BackupParams { max_entries_per_hunk: 1, max_block_size: 64, small_file_cap: 16, owner: true, exclude: vec![] };
+    let b = real_backup(&arch, &src, &p, IceptConfig::default());
+    report.case("big-index-lost-hunk", true);
+    report.hit("directed:big-index(10029 hunks)-lost-hunk");
+    if !b.result.starts_with("result ok") {
+        return;
+    }
+    let list = |a: &std::path::Path| real_list(a, &Sel::Band(0), "/", &[], IceptConfig::default());
+    let healthy = list(&arch);
+    if healthy.lines.len() != n + 1 || reports_error(&healthy) {
+        report.oracle_fail("damage:big-index-healthy-listing-wrong", json!({"directed": "big-index"}), "the undamaged big index does not list every entry cleanly", json!({"listed": healthy.lines.len(), "expected": n + 1}));
+        return;
+    }
+    for (what, k) in [("delete", 5000usize), ("truncate-0", 7000)] {
+        let hunk = arch.join(format!("b0000/i/{:05}/{:09}", k / 10000, k));
+        let saved = std::fs::read(&hunk).unwrap();
+        if what == "delete" { std::fs::remove_file(&hunk).unwrap(); } else { std::fs::write(&hunk, b"").unwrap(); }
+        let case = json!({"directed": "big-index", "hunks": n + 1, "damage": what, "hunk": k});
+        let l = list(&arch);
+        let any_error = reports_error(&l);
+        if l.result.starts_with("result panic") {
+            report.oracle_fail(&format!("damage:panic:list:big-index-hunk-{what}"), case.clone(), "listing crashed on a big index with one damaged hunk", json!(trunc(&l.result)));
+        } else if l.lines.len() < n && !any_error || l.lines.len() + 1 < n + 1 - 1 {
+            // exactly one entry may be missing (the damaged hunk's); anything more is silent loss of untouched hunks
+            report.oracle_fail(&format!("damage:untouched-entries-lost:big-index-hunk-{what}"), case.clone(), "after ONE index hunk was damaged, entries of untouched hunks are no longer listed", json!({"listed": l.lines.len(), "expected_at_least": n, "errors_reported": l.events.iter().filter(|e| e.starts_with("event error")).count()}));
+        } else if !any_error {
+            report.oracle_fail(&format!("damage:silently-dropped-or-altered:big-index-hunk-{what}"), case.clone(), "an entry whose hunk is missing or emptied was dropped from the listing without any error", json!({"listed": l.lines.len()}));
+        }
+        for quick in [true] {
+            let v = real_validate(&arch, quick, IceptConfig::default());
+            if !reports_error(&v) {
+                report.oracle_fail(&format!("validate:silent-on-hunk-{what}-big-index"), case.clone(), "validation is silent although an index hunk of a complete version is missing or emptied", json!({"quick": quick}));
+            }
+        }
+        std::fs::write(&hunk, saved).unwrap();
+    }
+}
+
 pub fn run_c10(tier: &str, seed: u64, report: &mut Report) {
     let thorough = tier == "thorough";
+    big_index_lost_hunk(report);
     let n_scen = if thorough { 10 } else { 2 };
     for sidx in 0..n_scen {
         let case_seed = seed.wrapping_mul(2971215073).wrapping_add(sidx as u64);
@@ -482,7 +533,7 @@ pub fn run_c10(tier: &str, seed: u64, report: &mut Report) {
                 }
             }
         }
-        let cases = plan(&sc.run.arch, &mut rng, if thorough { 8 } else { 3 }, false);
+        let cases = plan(&sc.run.arch, &mut rng, if thorough { 8 } else { 2 }, false);
         let mut session = Session::new();
         let mut pend: Vec<(Value, RunResult, usize, CmpOpts, &'static str)> = Vec::new();
         for dc in &cases {
